@@ -116,6 +116,7 @@ type PE struct {
 	fn      *ast.FuncDecl
 	failed  string // set when an unsupported construct was met (extraction undecided)
 	steps   int
+	inlineDepth int
 }
 
 func newPE(u *Universe, info *types.Info, fn *ast.FuncDecl) *PE {
@@ -496,6 +497,10 @@ func (pe *PE) evalCall(st *peState, call *ast.CallExpr) Val {
 			if v.K == vInt && id == "conv.string" {
 				return Val{K: vStr, S: string(rune(v.I))}
 			}
+		}
+	default:
+		if v, ok := pe.inlineCall(st, call); ok {
+			return v
 		}
 	case "builtin.len":
 		if len(call.Args) == 1 {
@@ -1104,3 +1109,54 @@ func uniqSorted(s []string) []string {
 }
 
 func joinAssumed(st *peState) string { return strings.Join(st.assumed, " && ") }
+
+// inlineCall evaluates a call of a plain function of the analysed package (a helper split off the analysed
+// function) on the argument values: the helper must return exactly one value on a single path
+func (pe *PE) inlineCall(st *peState, call *ast.CallExpr) (Val, bool) {
+	f := calleeFunc(pe.info, call)
+	if f == nil || f.Pkg() == nil || pe.inlineDepth >= 3 {
+		return Val{}, false
+	}
+	sig, _ := f.Type().(*types.Signature)
+	if sig == nil || sig.Recv() != nil || sig.Results().Len() != 1 || sig.Variadic() {
+		return Val{}, false
+	}
+	var fd *ast.FuncDecl
+	for _, p := range pe.u.Pkgs {
+		if p.Types != f.Pkg() || p.TypesInfo != pe.info {
+			continue
+		}
+		for _, file := range p.Syntax {
+			for _, d := range file.Decls {
+				if x, ok := d.(*ast.FuncDecl); ok && p.TypesInfo.Defs[x.Name] == types.Object(f) {
+					fd = x
+				}
+			}
+		}
+	}
+	if fd == nil || fd.Body == nil {
+		return Val{}, false
+	}
+	st2 := newState()
+	i := 0
+	for _, fld := range fd.Type.Params.List {
+		for _, nm := range fld.Names {
+			if i < len(call.Args) {
+				if o := pe.info.Defs[nm]; o != nil {
+					st2.env[o] = pe.eval(st, call.Args[i])
+				}
+			}
+			i++
+		}
+	}
+	savedFailed, savedOracle := pe.failed, pe.oracle
+	pe.inlineDepth++
+	outs := pe.exec(st2, fd.Body.List)
+	pe.inlineDepth--
+	failed := pe.failed != savedFailed
+	pe.failed, pe.oracle = savedFailed, savedOracle
+	if failed || len(outs) != 1 || outs[0].Kind != "return" || len(outs[0].RetV) != 1 || outs[0].RetV[0].K == 0 {
+		return Val{}, false
+	}
+	return outs[0].RetV[0], true
+}
